@@ -75,6 +75,9 @@ pub struct RefMode {
     pub h_abs: bool,
     /// minute-unit time tests: age rounded up to whole minutes (GNU find's window) instead of down
     pub min_ceil: bool,
+    /// a pattern with a backslash and no `*?[`: matched by fnmatch (the backslash quotes, as find
+    /// does) instead of compared as a string
+    pub bs_fnmatch: bool,
 }
 
 pub const CTIME_FORMATS: [&str; 3] = ["%c", "%a %b %e %H:%M:%S %Y", "%a %b %d %H:%M:%S %Y"];
@@ -87,6 +90,11 @@ impl RefMode {
         tests(e, &mut ts);
         actions(e, &mut av);
         let has_min = ts.iter().any(|t| matches!(t, Test::AccessTime(c) | Test::ChangeTime(c) | Test::ModifyTime(c) if matches!(cmp_inner(c), TimeSpec::Minute(_))));
+        let has_bs = ts.iter().any(|t| match t {
+            Test::Name(s) | Test::InsensitiveName(s) | Test::Path(s) | Test::InsensitivePath(s) => s.contains('\\') && !has_glob(s),
+            Test::XattrMatch(n, v) => (n.contains('\\') && !has_glob(n)) || (v.contains('\\') && !has_glob(v)),
+            _ => false,
+        });
         let mut has_ct = false;
         let mut has_h = false;
         for a in av {
@@ -104,7 +112,9 @@ impl RefMode {
         for ct in 0..=(if has_ct { CTIME_FORMATS.len() as u8 } else { 0 }) {
             for h in 0..=(has_h as u8) {
                 for m in 0..=(has_min as u8) {
-                    out.push(RefMode { ctime_style: ct, h_abs: h == 1, min_ceil: m == 1 });
+                    for b in 0..=(has_bs as u8) {
+                        out.push(RefMode { ctime_style: ct, h_abs: h == 1, min_ceil: m == 1, bs_fnmatch: b == 1 });
+                    }
                 }
             }
         }
@@ -120,8 +130,8 @@ pub struct Ctx<'a> {
     pub stop: bool,
 }
 
-fn name_match(pat: &str, subject: &str, ci: bool) -> bool {
-    if has_glob(pat) {
+fn name_match(pat: &str, subject: &str, ci: bool, mode: RefMode) -> bool {
+    if has_glob(pat) || (mode.bs_fnmatch && pat.contains('\\')) {
         fnmatch(pat, subject, ci)
     } else {
         streq(pat, subject, ci)
@@ -286,13 +296,13 @@ pub fn eval_test(t: &Test, c: &Ctx) -> Result<bool, Undefined> {
         Test::Perm(PermCheck::Equal(p)) => (r.mode & 0o7777) == p.0.bits(),
         Test::Perm(PermCheck::AtLeast(p)) => (r.mode & p.0.bits()) == p.0.bits(),
         Test::Perm(PermCheck::Any(p)) => (r.mode & p.0.bits()) != 0,
-        Test::Name(s) => name_match(s, r.name(), false),
-        Test::InsensitiveName(s) => name_match(s, r.name(), true),
-        Test::Path(s) => name_match(s, &r.relpath, false),
-        Test::InsensitivePath(s) => name_match(s, &r.relpath, true),
+        Test::Name(s) => name_match(s, r.name(), false, c.mode),
+        Test::InsensitiveName(s) => name_match(s, r.name(), true, c.mode),
+        Test::Path(s) => name_match(s, &r.relpath, false, c.mode),
+        Test::InsensitivePath(s) => name_match(s, &r.relpath, true, c.mode),
         Test::Pool(s) => r.pools.iter().any(|p| p == s),
         Test::Xattr(n) => r.xattrs.iter().any(|(k, _)| k == n),
-        Test::XattrMatch(n, v) => r.xattrs.iter().any(|(k, w)| name_match(n, k, false) && name_match(v, w, false)),
+        Test::XattrMatch(n, v) => r.xattrs.iter().any(|(k, w)| name_match(n, k, false, c.mode) && name_match(v, w, false, c.mode)),
         other => return Err(Undefined::Unsupported(format!("{:?}", other))),
     })
 }
